@@ -32,6 +32,7 @@ import (
 	"math/rand"
 	"os"
 	"runtime"
+	"runtime/debug"
 	"sort"
 	"strconv"
 	"strings"
@@ -70,6 +71,15 @@ var vc10Reduced = []vc10Sym{
 	{"~", lex.TTilde}, {"^", lex.TCarrot},
 }
 
+// vc10Small: a still smaller sub-alphabet for the longest layer of the thorough tier.
+var vc10Small = []vc10Sym{
+	{"a", lex.TLiteral}, {"7", lex.TLiteral}, {"w*", lex.TLiteral},
+	{"AND", lex.TAnd}, {"OR", lex.TOr}, {"NOT", lex.TNot}, {"TO", lex.TTO},
+	{"(", lex.TLParen}, {")", lex.TRParen}, {"[", lex.TLSquare}, {"]", lex.TRSquare},
+	{":", lex.TColon}, {"=", lex.TEqual}, {">", lex.TGreater}, {"+", lex.TPlus}, {"-", lex.TMinus},
+	{"~", lex.TTilde}, {"^", lex.TCarrot},
+}
+
 // vc10Extra: further lexemes of the term classes (they behave like the terms above
 // syntactically, so they are enumerated to a smaller length bound).
 var vc10Extra = []vc10Sym{
@@ -85,6 +95,12 @@ var vc10Extra = []vc10Sym{
 var vc10Chars = []vc10Sym{
 	{"a", 0}, {"7", 0}, {" ", 0}, {"\t", 0}, {`"`, 0}, {"'", 0}, {"/", 0}, {`\`, 0}, {"(", 0}, {")", 0}, {"[", 0}, {"]", 0},
 	{":", 0}, {"*", 0}, {"~", 0}, {"^", 0}, {"-", 0}, {"+", 0}, {".", 0}, {">", 0}, {"=", 0}, {";", 0}, {"\xff", 0}, {"T", 0}, {"O", 0},
+}
+
+// vc10FewChars: the sub-alphabet for one character more (thorough tier).
+var vc10FewChars = []vc10Sym{
+	{"a", 0}, {"7", 0}, {" ", 0}, {`"`, 0}, {"'", 0}, {"/", 0}, {`\`, 0}, {"(", 0}, {")", 0}, {"[", 0},
+	{":", 0}, {"*", 0}, {"~", 0}, {"-", 0}, {";", 0}, {"\xff", 0}, {"T", 0}, {"O", 0},
 }
 
 const vc10Field = "d" // default field of the second configuration; occurs in no enumerated input
@@ -352,12 +368,20 @@ func vc10NewStats() *vc10Stats {
 	return &vc10Stats{byCat: map[string]int64{}, best: map[string][]vc10Fail{}}
 }
 
-func (s *vc10Stats) keep(cat string, f vc10Fail) {
+// keep records f as a witness of cat if it is among the three smallest; the message is
+// only built then (mk == nil: f.msg is already there).
+func (s *vc10Stats) keep(cat string, f vc10Fail, mk func() string) {
 	l := s.best[cat]
 	for _, g := range l {
 		if g.input == f.input { // one message per input and category
 			return
 		}
+	}
+	if len(l) == 3 && !f.less(l[2]) {
+		return
+	}
+	if mk != nil {
+		f.msg = mk()
 	}
 	l = append(l, f)
 	sort.Slice(l, func(a, b int) bool { return l[a].less(l[b]) })
@@ -367,13 +391,13 @@ func (s *vc10Stats) keep(cat string, f vc10Fail) {
 	s.best[cat] = l
 }
 
-func (s *vc10Stats) fail(cat string, ntok int, input, msg string) {
-	s.failN(cat, 1, ntok, input, msg)
+func (s *vc10Stats) fail(cat string, ntok int, input string, mk func() string) {
+	s.failN(cat, 1, ntok, input, mk)
 }
 
-func (s *vc10Stats) failN(cat string, ncat, ntok int, input, msg string) {
+func (s *vc10Stats) failN(cat string, ncat, ntok int, input string, mk func() string) {
 	s.byCat[cat]++
-	s.keep(cat, vc10Fail{ncat, ntok, s.rnd, input, msg})
+	s.keep(cat, vc10Fail{ncat: ncat, ntok: ntok, rnd: s.rnd, input: input}, mk)
 }
 
 func (s *vc10Stats) merge(o *vc10Stats) {
@@ -384,7 +408,7 @@ func (s *vc10Stats) merge(o *vc10Stats) {
 	}
 	for c, l := range o.best {
 		for _, f := range l {
-			s.keep(c, f)
+			s.keep(c, f, nil)
 		}
 	}
 }
@@ -408,50 +432,68 @@ func vc10Check(st *vc10Stats, in string, want []vc10Sym) {
 		e, err, pan := vc10Parse(in, df)
 		switch {
 		case pan != "":
-			st.fail("panic", size, in, fmt.Sprintf("[panic] %s : Parse (%s) panicked: %s", q, cfg, pan))
+			st.fail("panic", size, in, func() string { return fmt.Sprintf("[panic] %s : Parse (%s) panicked: %s", q, cfg, pan) })
 		case e == nil && err == nil:
 			st.fail("parse-returns-neither-tree-nor-error", size, in,
-				fmt.Sprintf("[parse-returns-neither-tree-nor-error] %s : expected a tree or an error, Parse (%s) returned (nil, nil)", q, cfg))
+				func() string {
+					return fmt.Sprintf("[parse-returns-neither-tree-nor-error] %s : expected a tree or an error, Parse (%s) returned (nil, nil)", q, cfg)
+				})
 		case e != nil && err != nil:
 			st.fail("parse-returns-tree-and-error", size, in,
-				fmt.Sprintf("[parse-returns-tree-and-error] %s : expected a nil tree with the error %q, Parse (%s) also returned %s", q, err, cfg, vc10Show(e)))
+				func() string {
+					return fmt.Sprintf("[parse-returns-tree-and-error] %s : expected a nil tree with the error %q, Parse (%s) also returned %s", q, err, cfg, vc10Show(e))
+				})
 		}
 		// (2) every returned tree is valid and well-shaped
 		if pan == "" && e != nil {
 			accepted = true
 			if verr, vpan := vc10Validate(e); vpan != "" {
-				st.fail("panic", size, in, fmt.Sprintf("[panic] %s : Validate of the tree returned by Parse (%s) panicked: %s", q, cfg, vpan))
+				st.fail("panic", size, in, func() string {
+					return fmt.Sprintf("[panic] %s : Validate of the tree returned by Parse (%s) panicked: %s", q, cfg, vpan)
+				})
 			} else if verr != nil {
 				st.fail("returned-tree-fails-validate", size, in,
-					fmt.Sprintf("[returned-tree-fails-validate] %s : expected Validate to accept what Parse (%s) returned, got %q for %s", q, cfg, verr, vc10Show(e)))
+					func() string {
+						return fmt.Sprintf("[returned-tree-fails-validate] %s : expected Validate to accept what Parse (%s) returned, got %q for %s", q, cfg, verr, vc10Show(e))
+					})
 			}
 			bad := map[string]string{}
 			vc10Shape(e, true, bad)
 			for cat, what := range bad {
 				st.failN(cat, len(bad), size, in,
-					fmt.Sprintf("[%s] %s : expected a well-formed tree, Parse (%s) returned %s in which %s", cat, q, cfg, vc10Show(e), what))
+					func() string {
+						return fmt.Sprintf("[%s] %s : expected a well-formed tree, Parse (%s) returned %s in which %s", cat, q, cfg, vc10Show(e), what)
+					})
 			}
 		}
 		// (3) ToPostgres: (non-empty, nil) or ("", error)
 		s, perr, ppan := vc10ToPostgres(in, df)
 		switch {
 		case ppan != "":
-			st.fail("panic", size, in, fmt.Sprintf("[panic] %s : ToPostgres (%s) panicked: %s", q, cfg, ppan))
+			st.fail("panic", size, in, func() string { return fmt.Sprintf("[panic] %s : ToPostgres (%s) panicked: %s", q, cfg, ppan) })
 		case perr != nil && s != "":
 			st.fail("topostgres-sql-together-with-error", size, in,
-				fmt.Sprintf("[topostgres-sql-together-with-error] %s : expected \"\" with the error %q, ToPostgres (%s) also returned %q", q, perr, cfg, s))
+				func() string {
+					return fmt.Sprintf("[topostgres-sql-together-with-error] %s : expected \"\" with the error %q, ToPostgres (%s) also returned %q", q, perr, cfg, s)
+				})
 		case perr == nil && s == "":
 			st.fail("topostgres-empty-sql-without-error", size, in,
-				fmt.Sprintf("[topostgres-empty-sql-without-error] %s : expected a non-empty filter or an error, ToPostgres (%s) returned (\"\", nil)", q, cfg))
+				func() string {
+					return fmt.Sprintf("[topostgres-empty-sql-without-error] %s : expected a non-empty filter or an error, ToPostgres (%s) returned (\"\", nil)", q, cfg)
+				})
 		}
 		// (4) ToParameterizedPostgres: error implies empty SQL
 		ps, _, paerr, papan := vc10ToParam(in, df)
 		switch {
 		case papan != "":
-			st.fail("panic", size, in, fmt.Sprintf("[panic] %s : ToParameterizedPostgres (%s) panicked: %s", q, cfg, papan))
+			st.fail("panic", size, in, func() string {
+				return fmt.Sprintf("[panic] %s : ToParameterizedPostgres (%s) panicked: %s", q, cfg, papan)
+			})
 		case paerr != nil && ps != "":
 			st.fail("toparameterized-sql-together-with-error", size, in,
-				fmt.Sprintf("[toparameterized-sql-together-with-error] %s : expected \"\" with the error %q, ToParameterizedPostgres (%s) also returned %q", q, paerr, cfg, ps))
+				func() string {
+					return fmt.Sprintf("[toparameterized-sql-together-with-error] %s : expected \"\" with the error %q, ToParameterizedPostgres (%s) also returned %q", q, paerr, cfg, ps)
+				})
 		}
 	}
 	if accepted {
@@ -553,35 +595,28 @@ var vc10Templates = [][]string{
 	{"NOT", "a", ":", "b", "~", "7", "^", "7"},
 }
 
-// vc10Covered: the canonical rendering of these symbols already belongs to one of the
-// exhaustive domains (1)-(3), so other domains skip it (inputs are counted once).
-type vc10Bounds struct{ mainLen, redLen, extraLen int }
+// vc10Bounds: the exhaustive token layers (alphabet, longest sequence); a canonical
+// rendering that belongs to one of them is skipped by the other parts of the domain, so
+// that every input is counted once.
+type vc10Layer struct {
+	alpha  []vc10Sym
+	maxLen int
+}
+
+type vc10Bounds []vc10Layer
 
 func (b vc10Bounds) covered(parts []string) bool {
-	if len(parts) <= b.mainLen {
-		inMain := true
-		for _, p := range parts {
-			inMain = inMain && vc10In(vc10Main, p)
+	for _, l := range b {
+		if len(parts) > l.maxLen {
+			continue
 		}
-		if inMain {
+		in := true
+		for _, p := range parts {
+			in = in && vc10In(l.alpha, p)
+		}
+		if in {
 			return true
 		}
-	}
-	if len(parts) <= b.redLen {
-		inRed := true
-		for _, p := range parts {
-			inRed = inRed && vc10In(vc10Reduced, p)
-		}
-		if inRed {
-			return true
-		}
-	}
-	if len(parts) <= b.extraLen {
-		known := true
-		for _, p := range parts {
-			known = known && (vc10In(vc10Main, p) || vc10In(vc10Extra, p))
-		}
-		return known
 	}
 	return false
 }
@@ -757,15 +792,20 @@ func (g *vc10Gen) input(all []vc10Sym) string {
 
 func vc10Random(seed int64, count int, bounds vc10Bounds, total *vc10Stats, samples *[]string) (distinct int) {
 	all := append(append([]vc10Sym{}, vc10Main...), vc10Extra...)
-	workers := runtime.NumCPU()
+	// a fixed number of independent streams, so that the sample does not depend on the
+	// number of CPUs; the streams are distributed over the available cores
+	const workers = 64
 	per := count / workers
 	sets := make([]map[uint64]string, workers)
 	stats := make([]*vc10Stats, workers)
 	var wg sync.WaitGroup
+	slots := make(chan struct{}, runtime.NumCPU())
 	for w := 0; w < workers; w++ {
 		wg.Add(1)
 		go func(w int) {
 			defer wg.Done()
+			slots <- struct{}{}
+			defer func() { <-slots }()
 			g := &vc10Gen{rand.New(rand.NewSource(seed*1000003 + int64(w)))}
 			st := vc10NewStats()
 			st.rnd = true
@@ -891,18 +931,23 @@ func vc10SelfTest() (bad []string) {
 }
 
 func TestVerifStandin_C10(t *testing.T) {
+	defer debug.SetGCPercent(debug.SetGCPercent(400)) // allocation-heavy: collect less often
 	tier := os.Getenv("VERIF_TIER")
 	if tier != "thorough" {
 		tier = "quick"
 	}
 	seed := int64(vc10EnvInt("VERIF_SEED", 1))
-	mainLen, extraLen, charLen, randomN := 4, 3, 4, 200000
+	// quick: token alphabet to 4, characters to 4; thorough adds the 20-symbol sub-alphabet
+	// at 5 and an 18-character sub-alphabet at 5
+	mainLen, topLen, extraLen, charLen, topCharLen, randomN := 4, 0, 3, 4, 0, 200000
 	if tier == "thorough" {
-		mainLen, extraLen, charLen, randomN = 5, 4, 5, 2000000
+		mainLen, topLen, extraLen, charLen, topCharLen, randomN = 4, 5, 4, 4, 5, 2000000
 	}
 	mainLen = vc10EnvInt("VERIF_C10_LEN", mainLen)
+	topLen = vc10EnvInt("VERIF_C10_RLEN", topLen)
 	extraLen = vc10EnvInt("VERIF_C10_XLEN", extraLen)
 	charLen = vc10EnvInt("VERIF_C10_CLEN", charLen)
+	topCharLen = vc10EnvInt("VERIF_C10_RCLEN", topCharLen)
 	randomN = vc10EnvInt("VERIF_C10_RANDOM", randomN)
 
 	for _, b := range vc10SelfTest() {
@@ -922,23 +967,28 @@ func TestVerifStandin_C10(t *testing.T) {
 		bound = "replay of the single input given in VERIF_INPUT, without and with default field"
 	} else {
 		all := append(append([]vc10Sym{}, vc10Main...), vc10Extra...)
-		bounds := vc10Bounds{mainLen, 0, extraLen}
+		bounds := vc10Bounds{{vc10Main, mainLen}, {vc10Reduced, topLen}, {all, extraLen}}
+		skip := func(in string) bool { return bounds.covered(strings.Split(in, " ")) }
 		vc10Check(total, "", []vc10Sym{})
 		n1 := 1 + vc10Enumerate(vc10Main, " ", 1, mainLen, -1, nil, total)
+		n1 += vc10Enumerate(vc10Reduced, " ", mainLen+1, topLen, -1, nil, total)
 		n2 := vc10Enumerate(all, " ", 1, extraLen, len(vc10Main), nil, total)
-		n3 := vc10Enumerate(vc10Chars, "", 1, charLen, -1, func(in string) bool { return bounds.covered(strings.Split(in, " ")) }, total)
+		n3 := vc10Enumerate(vc10Chars, "", 1, charLen, -1, skip, total)
+		n3 += vc10Enumerate(vc10FewChars, "", charLen+1, topCharLen, -1, skip, total)
 		n4 := vc10Neighbourhood(all, bounds, total)
 		n5 := vc10Random(seed, randomN, bounds, total, &samples)
 		samples = append([]string{`""`, `"a"`, `"a : b"`, `"NOT a AND b"`, `"a : [ 7 TO b ]"`, `"\"a"`, `"a\xff"`, `"a:(7"`}, samples...)
 		bound = fmt.Sprintf("all inputs x {no default field, default field %q}; per pair: Parse, Validate + shape check of the tree, ToPostgres, ToParameterizedPostgres. "+
-			"Inputs: (1) every sequence of 0..%d symbols over the %d-symbol token alphabet %v rendered with single spaces (%d inputs); "+
+			"Inputs: (1) every sequence of 0..%d symbols over the %d-symbol token alphabet %v rendered with single spaces, and every sequence of %d..%d symbols over its %d-symbol sub-alphabet %v (%d inputs); "+
 			"(2) every sequence of 1..%d symbols over alphabet (1) plus %d further term lexemes %v that contains one of the latter (%d inputs); "+
-			"(3) every string of 1..%d characters over the %d characters %q, no separator (%d inputs not already in (1)/(2)); "+
+			"(3) every string of 1..%d characters over the %d characters %q and every string of %d..%d characters over the %d characters %q, no separator (%d inputs not already in (1)/(2)); "+
 			"(4) every sequence within two substitutions, one deletion or one insertion (over the %d symbols of (2)) of %d longer sentences %v (%d inputs); "+
 			"(5) %d distinct seeded random inputs: grammar-generated queries with up to 2 token mutations and arbitrary sequences of 6..12 tokens, random layout. "+
 			"Non-trivial = Parse returned a tree in at least one configuration, so that Validate and the shape check ran.",
-			vc10Field, mainLen, len(vc10Main), vc10Texts(vc10Main), n1, extraLen, len(vc10Extra), vc10Texts(vc10Extra), n2,
-			charLen, len(vc10Chars), vc10Texts(vc10Chars), n3, len(all), len(vc10Templates), vc10Templates, n4, n5)
+			vc10Field, mainLen, len(vc10Main), vc10Texts(vc10Main), mainLen+1, topLen, len(vc10Reduced), vc10Texts(vc10Reduced), n1,
+			extraLen, len(vc10Extra), vc10Texts(vc10Extra), n2,
+			charLen, len(vc10Chars), vc10Texts(vc10Chars), charLen+1, topCharLen, len(vc10FewChars), vc10Texts(vc10FewChars), n3,
+			len(all), len(vc10Templates), vc10Templates, n4, n5)
 	}
 
 	rep := vc10Report{Property: "C10", Tier: tier, Seed: seed, Evaluations: total.evals, Distinct: total.accepted,
